@@ -14,6 +14,9 @@ mod c05;
 mod wire;
 mod c09;
 mod c11;
+mod bsdrv;
+mod c12;
+mod c13;
 
 use common::Tier;
 
@@ -40,6 +43,8 @@ fn main() {
         "C06" => c03_c04_c06::run_c06(tier),
         "C09" => c09::run(tier),
         "C11" => c11::run(tier),
+        "C12" => c12::run(tier),
+        "C13" => c13::run(tier),
         "C15" => c15::run(tier),
         "C05" => c05::run(tier),
         "C07" => c07_c08_c18::run_c07(tier),
